@@ -110,7 +110,10 @@ Section Prims.
       | [VObj v] => lift_k (as_ptr cfg v) eptr_val s k
       | [x] => match ctor_is "Buf" x with                      (* NonNull::as_ptr of the handle *)
                | Some [VObj v] => k (VCtor "BufPtr" [VObj v]) s
-               | _ => stuck f s
+               | _ => match val_eptr x with                    (* NonNull<T>::as_ptr of a cursor *)
+                      | Some q => k (eptr_val q) s
+                      | None => stuck f s
+                      end
                end
       | _ => stuck f s
       end
@@ -150,7 +153,10 @@ Section Prims.
       match args with
       | [p; VInt n] => match ctor_is "BytePtr" p with
                        | Some [VObj b; VInt o] => k (VCtor "BytePtr" [VObj b; VInt (o - n)]) s
-                       | _ => stuck f s
+                       | _ => match val_eptr p with            (* element pointer: back n elements *)
+                              | Some q => k (eptr_val (padd cfg q (- n))) s
+                              | None => stuck f s
+                              end
                        end
       | _ => stuck f s
       end
@@ -160,7 +166,10 @@ Section Prims.
       | [p] => match ctor_is "BytePtr" p with
                | Some [VObj b; VInt o] =>
                    lift_k (hdr_block (At b o)) (fun x => VInt (if is "field:len" then h_len (snd x) else h_cap (snd x))) s k
-               | _ => stuck f s
+               | _ => match ctor_is "HeaderMut" p with         (* through header_mut() *)
+                      | Some [VObj v] => if is "field:len" then lift_k (len v) VInt s k else lift_k (capacity v) VInt s k
+                      | _ => stuck f s
+                      end
                end
       | _ => stuck f s
       end
@@ -308,6 +317,59 @@ Section Prims.
                    end
                | _ => stuck f s
                end
+      | _ => stuck f s
+      end
+    (* ---- iterator objects: `self` of Drain / IntoIter methods is VCtor "Iter" [VObj i] ---- *)
+    else if is "field:drain_pos_" || is "field:drain_end_" then
+      match args with
+      | [it] => match ctor_is "Iter" it with
+                | Some [VObj i] => lift_k (drain_of i) (fun d => eptr_val (if is "field:drain_pos_" then d_pos d else d_end d)) s k
+                | _ => stuck f s
+                end
+      | _ => stuck f s
+      end
+    else if is "field:v" then
+      match args with
+      | [it] => match ctor_is "Iter" it with
+                | Some [VObj i] => lift_k (into_of i) (fun t => VObj (i_vec t)) s k
+                | _ => stuck f s
+                end
+      | _ => stuck f s
+      end
+    else if is "field:pos" then
+      match args with
+      | [it] => match ctor_is "Iter" it with
+                | Some [VObj i] => lift_k (into_of i) (fun t => eptr_val (i_pos t)) s k
+                | _ => stuck f s
+                end
+      | _ => stuck f s
+      end
+    else if is "set:self.drain_pos_" || is "set:self.drain_end_" || is "set:self.pos" then
+      match args with
+      | [p; it] => match val_eptr p, ctor_is "Iter" it with
+                   | Some q, Some [VObj i] =>
+                       if is "set:self.drain_pos_" then lift_k (set_drain_pos i q) vunit s k
+                       else if is "set:self.drain_end_" then lift_k (set_drain_end i q) vunit s k
+                       else lift_k (set_into_pos i q) vunit s k
+                   | _, _ => stuck f s
+                   end
+      | _ => stuck f s
+      end
+    (* ---- address order of two element pointers (Eval.v sends pointer comparisons here) ---- *)
+    else if is "ptr:lt" || is "ptr:ge" then
+      match args with
+      | [p; q] => match val_eptr p, val_eptr q with
+                  | Some a, Some b => lift_k (ptr_lt a b) (fun r => VBool (if is "ptr:lt" then r else negb r)) s k
+                  | _, _ => stuck f s
+                  end
+      | _ => stuck f s
+      end
+    else if is "ptr:gt" || is "ptr:le" then
+      match args with
+      | [p; q] => match val_eptr p, val_eptr q with
+                  | Some a, Some b => lift_k (ptr_lt b a) (fun r => VBool (if is "ptr:gt" then r else negb r)) s k
+                  | _, _ => stuck f s
+                  end
       | _ => stuck f s
       end
     else stuck f s.
